@@ -21,7 +21,7 @@ static void runCase(const Json& c, const CrystalStructure cs) {
     b[q] = int(bv[q]);
     n[q] = int(nv[q]);
   }
-  long long threw = 0, unit = 1, orth = 1, par = 1, tens = 1, schmid = 1, ranksym = 1;
+  long long threw = 0, unit = 1, orth = 1, par = 1, tens = 1, schmid = 1, schmidval = 1, ranksym = 1;
   Json systems = Json::array();
   try {
     SSD ssd(cs);
@@ -69,6 +69,13 @@ static void runCase(const Json& c, const CrystalStructure cs) {
             const auto sf = ssd.getSchmidFactors(SSD::vec3d{x, y, z}, 0);
             for (auto f : sf)
               if (!(std::fabs(double(f)) <= 0.5 + 1e-12)) schmid = 0;
+            // the Schmid factor of system i for the loading direction d is (d.m_i)(d.n_i), d of unit length
+            if (sf.size() != ss.size()) schmidval = 0;
+            const long double nd = std::sqrt((long double)(x * x + y * y + z * z));
+            for (size_t i = 0; i < sf.size() && i < ns.size() && i < ds.size(); ++i) {
+              const long double dm = (x * ds[i][0] + y * ds[i][1] + z * ds[i][2]) / nd, dn = (x * ns[i][0] + y * ns[i][1] + z * ns[i][2]) / nd;
+              if (std::fabs(double(sf[i] - dm * dn)) > 1e-12) schmidval = 0;
+            }
           }
     } else {
       // loading directions in Miller-Bravais indices
@@ -99,7 +106,7 @@ static void runCase(const Json& c, const CrystalStructure cs) {
     r.set("what", Json(std::string(e.what()).substr(0, 120)));
   }
   r.set("threw", Json(threw)).set("systems", systems).set("unit", Json(unit)).set("orth", Json(orth)).set("parallel", Json(par));
-  r.set("tensors", Json(tens)).set("schmid", Json(schmid)).set("ranksym", Json(ranksym == 2 ? 1 : ranksym));
+  r.set("schmidval", Json(schmidval)).set("tensors", Json(tens)).set("schmid", Json(schmid)).set("ranksym", Json(ranksym == 2 ? 1 : ranksym));
   vp::Out::line(r);
 }
 
